@@ -561,6 +561,15 @@ func (n *vc01Net) startBTD(t *testing.T, conf dnsserver.ConfigBase) {
 	}
 }
 
+// vc01AnswerSize is an upper bound of the size of the answer to c.
+func vc01AnswerSize(c *ref.Case) int {
+	if c.Want == nil {
+		return 0
+	}
+
+	return min(c.Want.Len(), 65535) + 64
+}
+
 // vc01Sentinel is a query every server answers; its ID differs from the
 // input's.
 func vc01Sentinel(input []byte) (wire []byte, id uint16) {
@@ -604,6 +613,8 @@ func vc01Datagrams(addr string, inputs [][]byte, expect int, enc func([]byte) ([
 	}
 	defer c.Close()
 
+	_ = c.(*net.UDPConn).SetReadBuffer(4 << 20)
+
 	sw, sid := vc01Sentinel(inputs[0])
 	for _, w := range append(append([][]byte{}, inputs...), sw) {
 		b, eerr := enc(w)
@@ -630,7 +641,22 @@ func vc01Datagrams(addr string, inputs [][]byte, expect int, enc func([]byte) ([
 		nr, rerr := c.Read(buf)
 		if rerr != nil {
 			if waiting {
-				return r, vc01Env("udp %s: timed out (sentinel answers %d, other messages %d)", addr, sentinels, len(r.Msgs))
+				var sent, got []string
+				for _, w := range inputs {
+					sm := &dns.Msg{}
+					if sm.Unpack(w) == nil && len(sm.Question) > 0 {
+						sent = append(sent, fmt.Sprintf("%d:%s/%d/%d(%do)", sm.Id, sm.Question[0].Name, sm.Question[0].Qtype, sm.Question[0].Qclass, len(w)))
+					}
+				}
+
+				for _, g := range r.Msgs {
+					gm := &dns.Msg{}
+					if gm.Unpack(g) == nil && len(gm.Question) > 0 {
+						got = append(got, fmt.Sprintf("%d:%s/%d/%d rc%d tc%t", gm.Id, gm.Question[0].Name, gm.Question[0].Qtype, gm.Question[0].Qclass, gm.Rcode, gm.Truncated))
+					}
+				}
+
+				return r, vc01Env("udp %s: timed out (sentinel answers %d, other messages %d of %d expected); sent %v; received %v", addr, sentinels, len(r.Msgs), expect, sent, got)
 			}
 
 			return r, nil
@@ -1261,6 +1287,7 @@ func vc01SocketCase(t *rapid.T, st *vstat.Stats, n *vc01Net, in ref.Input) {
 		// that must be answered there (an unanswered query closes a stream
 		// connection under its neighbours) and, for UDP, fit the receive buffer.
 		streamCases, dgramCases := []*ref.Case{}, []*ref.Case{}
+		dgramVolume := 0
 		burst, _ := ref.DrawBurst(t, in.Msg, 6)
 		for _, bc := range append([]*ref.Case{c, cs[1]}, func() (out []*ref.Case) {
 			for _, bm := range burst {
@@ -1278,8 +1305,11 @@ func vc01SocketCase(t *rapid.T, st *vstat.Stats, n *vc01Net, in ref.Input) {
 				streamCases = append(streamCases, bc)
 			}
 
-			if len(bc.Wire) <= dns.MinMsgSize {
-				dgramCases = append(dgramCases, bc)
+			// The answers of one burst arrive back to back on one socket: keep
+			// their volume well below its receive buffer (a dropped datagram is
+			// the harness's loss, not the server's).
+			if vol := dgramVolume + vc01AnswerSize(bc); len(bc.Wire) <= dns.MinMsgSize && vol <= 48<<10 {
+				dgramCases, dgramVolume = append(dgramCases, bc), vol
 			}
 		}
 
